@@ -57,8 +57,9 @@ type Hub struct {
 	Notify  chan ParkMsg
 	names   map[sop.UUID]string
 	nameN   map[string]int
-	OnCall  func(txn, kind string, n int) // optional observer (called outside lock, before the call)
-	Reached map[string]bool               // fault txn reached flags
+	OnCall  func(txn, kind string, n int)     // optional observer (called outside lock, before the call)
+	Reached map[string]bool                   // fault txn reached flags
+	Tap     func(kind string, ids []sop.UUID) // optional: raw ids of blob reads / registry lookups (reachability audits)
 }
 
 type ParkMsg struct {
